@@ -828,6 +828,8 @@ FAMS = {
     "J": ({"R": 2, "PARENTS": 3, "L10": M(0, 16, 19, 21), "L20": M(16, 19), "L11": M(0, 1, 4, 19)}, "J: tupleset p: [doc, doc with k, org] (duplicate conditioned parent followed by another parent)"),
     "J4": ({"R": 2, "PARENTS": 4, "L10": M(0, 16, 19, 21), "L20": M(16, 19, 21), "L11": M(0, 1, 4, 19)}, "J4: tupleset p: [org, org with k, doc] (the own type listed after a duplicate conditioned parent)"),
     "J5": ({"R": 2, "PARENTS": 5, "L10": M(0, 16, 19, 21), "L20": M(16, 19), "L11": M(0, 1, 4, 19)}, "J5: tupleset p: [doc, doc with k, bare] (last parent type defines no relation)"),
+    "J8": ({"R": 2, "PARENTS": 8, "L10": M(0, 16, 19, 21), "L20": M(16, 19), "L11": M(0, 1, 4, 19)}, "J8: tupleset p: [doc, org, doc with k] (the same parent type twice with another one in between)"),
+    "NA": ({"R": 2, "L10": M(0, 25), "L20": M(16, 19), "REV0": 1, "L11": M(0, 4)}, "NA: a = [user] | [user, doc#b, user with k] (the same target twice, not next to each other), optionally op b / b from p in either order; b = [user] | [doc#a]"),
     "J7": ({"R": 2, "PARENTS": 7, "L10": M(0, 16), "L20": M(19, 21), "L11": M(0, 19)},
            "J7: the tupleset p is `define p: a` with an empty, non-nil list of type restrictions (as the DSL transformer builds it); a = [user] | b, optionally op (b from p | a from p), b = [user] | a from p"),
     "J6": ({"R": 2, "PARENTS": 6, "L10": M(0, 16, 19, 21), "L20": M(16, 19), "L11": M(0, 1, 4, 19)}, "J6: tupleset p: [bare, doc] (a parent type that defines no relation listed in front of the own type)"),
@@ -916,7 +918,7 @@ def c06(tier):
 
 def c10(tier):
     api = dict(T("graph", "VerifC10_PublicAPI"), _reach=["checked"])
-    graph_check("C10", 10, tier, [("B", *FI), ("P", *FI), ("J", *FI), ("J4", *FI), ("J5", *FI), ("J6", *FI), ("K", *FI), ("H", *FI), ("G", *FI), ("Q", *FI), ("Q2", *FI), ("S1", *FI), ("W", *FI), ("NC", *FI), ("Q3", *FI)], [("D", *FI), ("E", *FI), ("P", *RA), ("L", *FI), ("G", *FI), ("H", *FI), ("J", *FI), ("K", *FI)], extra_jobs=[api])
+    graph_check("C10", 10, tier, [("B", *FI), ("P", *FI), ("J", *FI), ("J4", *FI), ("J5", *FI), ("J6", *FI), ("K", *FI), ("H", *FI), ("G", *FI), ("Q", *FI), ("Q2", *FI), ("S1", *FI), ("W", *FI), ("NC", *FI), ("Q3", *FI), ("J8", *FI), ("NA", *FI)], [("D", *FI), ("E", *FI), ("P", *RA), ("L", *FI), ("G", *FI), ("H", *FI), ("J", *FI), ("K", *FI)], extra_jobs=[api])
 
 
 def c11(tier):
@@ -1166,7 +1168,7 @@ def c17(tier):
     def J(h, famname, pol=C17_SCHED, **extra):
         return T("graph", h, dict(FAMS[famname][0], **extra), **pol)
     q = tier == "quick"
-    jobs = [J("VerifC17_Faithful", "A"), J("VerifC17_Faithful", "B"), J("VerifC17_Faithful", "H"), J("VerifC17_Faithful", "J"), J("VerifC17_Faithful", "J5"), J("VerifC17_Faithful", "J6"), J("VerifC17_Faithful", "J4"), J("VerifC17_Faithful", "K"), J("VerifC17_Faithful", "S1"), J("VerifC17_Faithful", "Q3"),
+    jobs = [J("VerifC17_Faithful", "A"), J("VerifC17_Faithful", "B"), J("VerifC17_Faithful", "H"), J("VerifC17_Faithful", "J"), J("VerifC17_Faithful", "J5"), J("VerifC17_Faithful", "J6"), J("VerifC17_Faithful", "J4"), J("VerifC17_Faithful", "K"), J("VerifC17_Faithful", "S1"), J("VerifC17_Faithful", "Q3"), J("VerifC17_Faithful", "J8"), J("VerifC17_Faithful", "NA"),
             J("VerifC17_Reversed", "A", PAIRS=4, WINDOWS=3), J("VerifC17_Reversed", "W", PAIRS=4, WINDOWS=3), J("VerifC17_Reversed", "N", PAIRS=4, WINDOWS=3),
             J("VerifC17_Stable", "W", C17_WIDE),
             J("VerifC17_Stable", "A"), J("VerifC17_Stable", "B"), J("VerifC17_Stable", "N"), T("graph", "VerifC17_StableNames", {}, **C17_SCHED),
